@@ -11,7 +11,8 @@ import itertools, json
 import vlib
 
 GROUP = 'uc'
-TRUSTED = ['Python 3 str.encode/decode("utf-8") as the independent reference of the failing-input search']
+TRUSTED = ['tools/c2clite.py + clang -ast-dump=json (syntax printer of the translated uc.c functions) and the C semantics fixed in coq/CLite.v (x86-64 integer sizes, left-to-right evaluation, conversions wrap, <ctype.h> builtins in the C locale)',
+           'Python 3 str.encode/decode("utf-8") as the independent reference of the failing-input search']
 
 ALPHA = [0x61, 0x20, 0x5f, 0x09, 0x7f, 0x80, 0xe9, 0x62a, 0x7ff, 0x800, 0x20ac, 0x4e2d, 0x301, 0x200c,
          0xd7ff, 0xe000, 0xffff, 0x10000, 0x1f600, 0x10ffff]
